@@ -126,8 +126,64 @@ type ioRunner struct {
 	transport string
 }
 
+var bridgeSeq int
+
+// a stream over a bridge subprocess: the Connection's own ctxio.Conn on top of the child's stdio pipes,
+// obtained the way an application gets it: through Upgrade
+func bridgeStream() (varlink.ReadWriterContext, net.Conn, func(), error) {
+	bridgeSeq++
+	addr := fmt.Sprintf("@verif-ctxio-bridge-%d-%d", os.Getpid(), bridgeSeq)
+	l, err := net.Listen("unix", addr)
+	if err != nil {
+		return nil, nil, nil, err
+	}
+	defer l.Close()
+	self, _ := os.Executable()
+	conn, err := varlink.NewBridge("exec " + self + " relay unix " + addr)
+	if err != nil {
+		return nil, nil, nil, err
+	}
+	l.(*net.UnixListener).SetDeadline(time.Now().Add(5 * time.Second))
+	peer, err := l.Accept()
+	if err != nil {
+		conn.Close()
+		return nil, nil, nil, err
+	}
+	ctx, cancel := context.WithTimeout(context.Background(), 5*time.Second)
+	defer cancel()
+	recv, err := conn.Upgrade(ctx, "x.y.Upgrade", nil)
+	if err != nil {
+		return nil, nil, nil, err
+	}
+	if _, err := bufio.NewReader(peer).ReadBytes(0); err != nil { // the upgrade request
+		return nil, nil, nil, err
+	}
+	peer.Write([]byte("{}\x00"))
+	var out json.RawMessage
+	_, rw, err := recv(ctx, &out)
+	if err != nil {
+		return nil, nil, nil, err
+	}
+	return rw, peer, func() { go conn.Close() }, nil
+}
+
 func (r *ioRunner) run(ops []ioOp) {
-	mine, peer, err := transportPair(r.transport)
+	var mine, peer net.Conn
+	var err error
+	var brw varlink.ReadWriterContext
+	var bclose func()
+	if r.transport == "bridge" {
+		brw, peer, bclose, err = bridgeStream()
+		if err != nil {
+			r.log.Ev("SETUPFAIL", tr.M{"err": err.Error()})
+			return
+		}
+		a, b := net.Pipe() // placeholder so that the bookkeeping below has a connection object
+		mine = a
+		b.Close()
+	} else {
+		mine, peer, err = transportPair(r.transport)
+	}
 	if err != nil {
 		panic(err)
 	}
@@ -145,6 +201,11 @@ func (r *ioRunner) run(ops []ioOp) {
 	defer close(peerQ)
 	ac := &actConn{Conn: mine}
 	rw := varlink.VerifNewRW(ac)
+	if brw != nil {
+		rw = brw
+		ac.inRead = 1 // unobservable on a bridge: quiescence falls back to "nothing happened for a while"
+		defer bclose()
+	}
 	sent := 0
 	var done chan struct{} // closed when the current operation has returned
 	var cancel context.CancelFunc
@@ -164,6 +225,10 @@ func (r *ioRunner) run(ops []ioOp) {
 			return true
 		}
 	}
+	stableNeeded := 5
+	if brw != nil {
+		stableNeeded = 200 // bytes travel through the relay process: give them time before calling it quiet
+	}
 	settle := func() {
 		stable, last := 0, atomic.LoadInt64(&activity)
 		dl := time.Now().Add(2 * time.Second)
@@ -172,7 +237,7 @@ func (r *ioRunner) run(ops []ioOp) {
 			now := atomic.LoadInt64(&activity)
 			if now == last && (!opActive() || atomic.LoadInt32(&ac.inRead) == 1) {
 				stable++
-				if stable >= 5 {
+				if stable >= stableNeeded {
 					return
 				}
 			} else {
@@ -303,17 +368,23 @@ func (r *ioRunner) run(ops []ioOp) {
 		settle()
 	}
 	// cleanup (logged): let a pending operation return
+	if opActive() && (curCtx == "cancellable" || curCtx == "deadline") && atomic.LoadInt64(&cancelAt) == 0 {
+		if curCtx == "deadline" && !shortDeadline {
+			curCtx = "cancellable"
+		}
+		if !shortDeadline {
+			r.log.Ev("CANCEL", tr.M{"how": "cancel"})
+		}
+		atomic.StoreInt64(&cancelAt, time.Now().UnixNano())
+		cancel()
+		select {
+		case <-done:
+		case <-time.After(3 * time.Second):
+			r.log.Ev("HANG", tr.M{"what": "operation did not return within 3s of its context being done"})
+		}
+	}
 	if opActive() {
-		if curCtx == "cancellable" || curCtx == "deadline" {
-			if curCtx == "deadline" && !shortDeadline {
-				curCtx = "cancellable"
-			}
-			if !shortDeadline {
-				r.log.Ev("CANCEL", tr.M{"how": "cancel"})
-			}
-			atomic.StoreInt64(&cancelAt, time.Now().UnixNano())
-			cancel()
-		} else if !peerClosed {
+		if !peerClosed {
 			r.log.Ev("PC", nil)
 			peerQ <- nil
 			peerClosed = true
@@ -321,7 +392,7 @@ func (r *ioRunner) run(ops []ioOp) {
 		select {
 		case <-done:
 		case <-time.After(5 * time.Second):
-			r.log.Ev("HANG", tr.M{"what": "operation did not return within 5s of cancellation / end of stream"})
+			r.log.Ev("STUCK", tr.M{"what": "operation did not return within 5s of the end of the stream"})
 		}
 	}
 	if cancel != nil {
